@@ -396,6 +396,7 @@ func genBackend(t *rapid.T, c *Client, o genOpts) Backend {
 	b.Headers = genHeaderKVs(t, "resp_hdr", 2)
 	b.Trailers = genHeaderKVs(t, "resp_trl", 2)
 	b.TrailerStyle = rapid.SampledFrom([]string{"declared", "prefixed"}).Draw(t, "trailer_style")
+	fixTrailerStyle(&b)
 	b.DeclareCL = rapid.IntRange(0, 3).Draw(t, "resp_declare_cl") == 0
 	if b.Kind == "error" || b.Kind == "trailers_only" {
 		b.Err = genErrSpec(t, "err", true)
@@ -454,4 +455,22 @@ func anyNonDefault(msgs [][]byte) bool {
 		}
 	}
 	return false
+}
+
+// fixTrailerStyle: a name used both as header and as trailer can only be told
+// apart with http.TrailerPrefix (with a pre-announced key net/http itself sends
+// the header value again as trailer).
+func fixTrailerStyle(b *Backend) {
+	seen := map[string]bool{}
+	for _, kv := range b.Headers {
+		seen[strings.ToLower(kv.K)] = true
+	}
+	for _, kv := range b.RawHeaders {
+		seen[strings.ToLower(kv.K)] = true
+	}
+	for _, kv := range b.Trailers {
+		if seen[strings.ToLower(kv.K)] {
+			b.TrailerStyle = "prefixed"
+		}
+	}
 }
